@@ -64,11 +64,12 @@ func (f *Nconc) Call(s *slip.Scope, args slip.List, depth int) (result slip.Obje
 				break
 			}
 			if list, ok := result.(slip.List); ok {
-				ta = append(ta, list...)
+				// Never append into spare capacity: the backing array may be shared with other lists.
+				ta = append(ta[:len(ta):len(ta)], list...)
 				result = ta
 				break
 			}
-			ta = append(ta, slip.Tail{Value: result})
+			ta = append(ta[:len(ta):len(ta)], slip.Tail{Value: result})
 			result = ta
 		default:
 			if result == nil {
